@@ -64,17 +64,14 @@ def _prune_numba(root: Path, keep: Path) -> None:
 
     try:
         dirs = sorted((d for d in root.iterdir() if d.is_dir()), key=lambda d: d.stat().st_mtime)
-    except FileNotFoundError:
+    except OSError:
         return
     for d in dirs[:-4]:
-        if d != keep and time.time() - d.stat().st_mtime > 6 * 3600:
-            shutil.rmtree(d, ignore_errors=True)
-    for f in root.iterdir():  # legacy flat cache files
-        if f.is_file():
-            try:
-                f.unlink()
-            except OSError:
-                pass
+        try:
+            if d != keep and time.time() - d.stat().st_mtime > 6 * 3600:
+                shutil.rmtree(d, ignore_errors=True)
+        except OSError:  # removed by a concurrent run
+            pass
 
 
 def repo_root() -> Path:
